@@ -147,8 +147,9 @@ def run(ctx):
     from ..rules import sC20
     return [pC20.rule_order(ctx), pC20.rule_once(ctx), pC20.rule_let_order(ctx), pC20.rule_drop(ctx), flatpar.rule_flat(ctx),
             sC20.rule_paste(ctx), sC20.rule_stack(ctx), sC20.rule_hoist(ctx),
-            sC20.rule_rewrite(ctx, 'main', floor=200), sC20.rule_inplace(ctx, 'main', floor=10), sC20.rule_short(ctx), sC20.rule_listdir(ctx), sC20.rule_kwmap(ctx, 'main', floor=150)]
-    # pending finding (FINDING_2 of session s4-G5): sC20.rule_rewrite(ctx, 'cross-order', floor=200) -> C20-REWRITE-XORDER reports
+            sC20.rule_rewrite(ctx, 'main', floor=200), sC20.rule_inplace(ctx, 'main', floor=10), sC20.rule_short(ctx), sC20.rule_listdir(ctx), sC20.rule_kwmap(ctx, 'main', floor=150),
+            sC20.rule_rewrite(ctx, 'cross-order', floor=200)]
+    # armed after the repair b8df1e725 (FINDING_2 of session s4-G5): sC20.rule_rewrite(ctx, 'cross-order', floor=200) -> C20-REWRITE-XORDER reports
     #   ParseTreeTransforms.PostParse._visit_assignment_node:cross-order on the unmodified tree: `a1, b1 = a2, *s2 = f(), g()` calls g before f.
     # pending finding (FINDING_3 of session s4-G5): sC20.rule_inplace(ctx, 'read-once', floor=10) -> C20-INPLACE-READONCE reports
     #   ParseTreeTransforms.ExpandInplaceOperators.visit_InPlaceAssignmentNode:read-once: `o.a.b += 1` reads o.a twice, `f()[g()].a += 1` calls __getitem__ twice.
